@@ -125,6 +125,20 @@ func NewSchema(config SchemaConfig) (Schema, error) {
 		}
 	}
 
+	// Types that only occur as the type of a directive argument belong to the
+	// schema as well: without this they are missing from the type map and their
+	// lazily defined fields would first be computed while requests are served.
+	for _, dir := range schema.directives {
+		for _, arg := range dir.Args {
+			if arg == nil || arg.Type == nil {
+				continue
+			}
+			if typeMap, err = typeMapReducer(&schema, typeMap, arg.Type); err != nil {
+				return schema, err
+			}
+		}
+	}
+
 	schema.typeMap = typeMap
 
 	// Keep track of all implementations by interface name.
